@@ -446,7 +446,7 @@ impl<'a> Compiler<'a> {
                         .iter()
                         .take(self.current_namespace.len() - super_depth)
                         .flat_map(|x| [x.as_ref(), "."])
-                        .chain([alias, ".", s.unwrap_or(suffix)].iter().copied())
+                        .chain([s.unwrap_or(alias), ".", suffix].iter().copied())
                         .collect::<String>();
 
                     to = jump_table.get(&name);
